@@ -61,6 +61,13 @@ var AccountNames = []string{"val", "feeder", "lp1", "lp2", "t1", "t2", "t3", "bo
 
 // Env is the part of the explored state that lives in the harness (the environment's memory):
 // the block time and the prices the feeder keeps re-posting. It is part of every state key.
+// VoucherDenom is the fixture's fourth asset: an IBC voucher (WETH, 18 decimals) whose asset-profile entry has a
+// base denom different from the denom it circulates under, registered in the oracle under the voucher denom —
+// the layout of every IBC asset on the live chain. It is inert unless an op names it.
+const VoucherDenom = "ibc/2180E84E20F5679FCC760D8C165B60F42065DEF7F46A72B447CFF1B7DC6C0A65"
+const VoucherBase = "aweth"
+const VoucherPrice = "2000"
+
 type Env struct {
 	Tm     int64  // header time of the last committed block
 	Atom   string // price the feeder posts for ATOM
@@ -116,7 +123,7 @@ func DeterministicGenesis(app *elysapp.ElysApp, accs []Acct) (elysapp.GenesisSta
 	totalSupply := sdk.NewCoins()
 	for _, a := range accs {
 		genAccs = append(genAccs, authtypes.NewBaseAccountWithAddress(a.Addr))
-		coins := sdk.NewCoins(sdk.NewInt64Coin("uusdc", 1e15), sdk.NewInt64Coin("uatom", 1e15), sdk.NewInt64Coin("uelys", 1e15))
+		coins := sdk.NewCoins(sdk.NewInt64Coin("uusdc", 1e15), sdk.NewInt64Coin("uatom", 1e15), sdk.NewInt64Coin("uelys", 1e15), sdk.NewCoin(VoucherDenom, math.NewIntWithDecimal(1, 24)))
 		balances = append(balances, banktypes.Balance{Address: a.Addr.String(), Coins: coins})
 		totalSupply = totalSupply.Add(coins...)
 	}
@@ -157,7 +164,7 @@ func DeterministicGenesis(app *elysapp.ElysApp, accs []Acct) (elysapp.GenesisSta
 		Coins:   sdk.Coins{sdk.NewCoin(ptypes.Elys, bondAmt)},
 	})
 	metas := []banktypes.Metadata{}
-	for _, d := range []string{"uatom", "uelys", "uusdc"} {
+	for _, d := range []string{"uatom", "uelys", "uusdc", VoucherDenom} {
 		metas = append(metas, banktypes.Metadata{Base: d, Display: d, Name: d, Symbol: d, DenomUnits: []*banktypes.DenomUnit{{Denom: d, Exponent: 0}}})
 	}
 	bankGenesis := banktypes.NewGenesisState(banktypes.DefaultGenesisState().Params, balances, totalSupply, metas, []banktypes.SendEnabled{})
